@@ -64,6 +64,17 @@ def collect(pid, tier, seed, d):
                        "-x", "maxscn=%d" % cap], env={"GORACE": "log_path=%s halt_on_error=0 exitcode=0" % racelog})
     fails, drifts, summ = judge_histories(d, "TPPool", hist, pid, shards=8, heap="3g")
     log("judged %d pool histories (%d events): %d failing, %d drifting" % (summ.get("scenarios", 0), summ.get("events", 0), len(fails), len(drifts)))
+    # code -> spec: small recorded histories must be explained by FlytPool (send and pickup inferred as silent steps)
+    def small(r):
+        c = r["cfg"]
+        return (c["S"] * c["per"] * c["rounds"] <= 8 and max(c["W"], 1) <= 3
+                and not any(e["ev"] in ("hang", "stuck", "race", "panic") for e in r["h"]))
+    tv_n, tv_ok, tv_states, tv_trans = trace_validate(d, "TracePool", hist, keep=small, shards=4)
+    states += tv_states; transitions += tv_trans
+    unexplained = tv_n - len(tv_ok)
+    mc_info.append({"spec": "TracePool (trace validation of recorded histories)", "histories": tv_n, "explained": len(tv_ok),
+                    "distinct_states": tv_states, "states_generated": tv_trans})
+    log("trace validation against FlytPool: %d of %d histories explained" % (len(tv_ok), tv_n))
     violations, known_hits = [], {}
     races = glob.glob(racelog + ".*")
     if races and pid == "C12":
@@ -108,7 +119,7 @@ def collect(pid, tier, seed, d):
         pass
     return dict(states=states, transitions=transitions, scenarios=summ.get("scenarios", 0), events=summ.get("events", 0),
                 hits={k: v for k, v in summ.items() if k not in ("scenarios", "events")}, violations=violations, known_hits=known_hits,
-                drifts=len(drifts), mc_info=mc_info, samples=samples, exported=len(scn_lines), modes=modes, count=count)
+                drifts=len(drifts) + unexplained, mc_info=mc_info, samples=samples, exported=len(scn_lines), modes=modes, count=count)
 
 
 def run(pid, tier, seed):
